@@ -632,6 +632,7 @@ class Extractor:
             p.insert(rs, '(%s: ' % fs.ret)
             p.insert(re_, ')')
         # contract
+        self._cur_has_body = parts['has_body']
         spec_txt = self.contract_text(fs, what)
         end_tok = sig[parts['sig_end_tok']]
         if spec_txt:
@@ -642,6 +643,8 @@ class Extractor:
             text, log, orig = p.render()
             self.log += log
             self.record_span(src, it.attr_start, it.end, what)
+            self.fn_index[-1]['_text'] = text
+            self.fn_index[-1]['has_body'] = False
             return text
         bo = parts['sig_end_tok']
         bc = sig[bo].match
@@ -651,7 +654,12 @@ class Extractor:
             text, log, orig = p.render()
             self.log += log
             self.record_span(src, it.attr_start, it.end, what)
+            self.fn_index[-1]['_text'] = text
+            self.fn_index[-1]['has_body'] = False
             return text
+        if self.canary == 'ALL':
+            # vacuity canary: must be refuted in every function (a contradictory pre-condition would verify it)
+            p.insert(body_s, '\nproof { assert(false); } // canary\n')
         # loops
         loops = find_loops(src, bo + 1, bc)
         for k, txt in fs.loops.items():
@@ -765,6 +773,8 @@ class Extractor:
         text, log, orig = p.render()
         self.log += log
         self.record_span(src, it.attr_start, it.end, what)
+        self.fn_index[-1]['_text'] = text
+        self.fn_index[-1]['has_body'] = True
         return text
 
     def contract_text(self, fs, what):
@@ -946,6 +956,19 @@ def generate(spec_path, repo, features, known_off=False, canary=None):
             '#![allow(unused_imports, unused_variables, dead_code, unused_mut, unused_macros, non_snake_case, unused_parens, unused_braces, unreachable_code, unused_assignments)]\n'
             'use vstd::prelude::*;\n' % os.path.relpath(spec_path, VERIF)
             + '\n'.join(outside) + '\nverus! {\n' + '\n'.join(body) + '\n} // verus!\nfn main() {}\n')
+    # line ranges of every extracted function inside the generated file
+    search_from = 0
+    for f in ex.fn_index:
+        t = f.pop('_text', None)
+        if t is None:
+            continue
+        pos = text.find(t, search_from)
+        if pos < 0:
+            pos = text.find(t)
+        if pos >= 0:
+            f['gen_line_start'] = text.count('\n', 0, pos) + 1
+            f['gen_line_end'] = f['gen_line_start'] + t.count('\n')
+            search_from = pos + len(t)
     meta = {
         'unit': unit.name, 'spec': os.path.relpath(spec_path, VERIF), 'flags': unit.flags, 'features': sorted(features),
         'spans': ex.spans, 'rewrites': ex.log, 'functions': ex.fn_index, 'preludes': preludes,
